@@ -229,6 +229,16 @@ def judge(pat, impl, host, root, remove, spec_cache):
             anymaybe = anymaybe or all(z[3] for z in hit)
             continue
         d = {"got": _js((b, nodes, outs)), "spec_solutions": [_js(z) for z in fz[:4]]}
+        # symptom labels (they name the finding, they do not decide it)
+        if len(outs) != len(pat["outs"]):
+            kind, detail = "false-match", dict(d, label="reported-without-output-values", fixed_kind=True,
+                                               what="truthy MatchResult whose outputs list is shorter than the pattern's outputs")
+            break
+        if len(set(nodes)) > _max_instance_nodes(pat):
+            kind, detail = "wrong-nodes", dict(d, label="more-nodes-than-node-patterns", fixed_kind=True,
+                                               what="match.nodes has more distinct nodes than any instance of the pattern has "
+                                                    "node-patterns: some node-pattern is bound to two host nodes")
+            break
         if not cand:
             if remove and any((_freeze_spec(fh, s)[0] == b) for s in allsols):
                 kind, detail = "removability", dict(d, what="matched although a matched node's value is used outside / is a graph output")
@@ -259,6 +269,28 @@ def _js(z):
     b = {k: (list(v) if isinstance(v, tuple) else v) for k, v in z[0].items()}
     return {"bindings": b, "nodes": sorted(z[1]) if isinstance(z[1], (set, frozenset)) else list(z[1]),
             "outputs": list(z[2])}
+
+
+def _max_instance_nodes(pat):
+    """Upper bound on the number of node-patterns an instance can use: reachable from the outputs taking, at
+    every OR, the alternative that reaches most."""
+    def reach(vp, seen):
+        if vp is None:
+            return seen
+        if vp[0] == "o":
+            if vp[1] in seen:
+                return seen
+            seen = seen | {vp[1]}
+            for x in pat["nodes"][vp[1]]["ins"]:
+                seen = reach(x, seen)
+            return seen
+        if vp[0] == "or":
+            return max((reach(a, seen) for a in vp[1]), key=len)
+        return seen
+    seen = frozenset()
+    for o in pat["outs"]:
+        seen = reach(o, seen)
+    return len(seen)
 
 
 def _has_bt_or(pat):
@@ -378,7 +410,7 @@ def verdicts(pat, impl, host, root):
         outcome, kind, detail = judge(pat, impl, host, root, remove, cache)
         if not remove:
             kind_f = kind
-        elif kind in ("missed-match", "false-match") and kind_f is None:
+        elif kind in ("missed-match", "false-match") and kind_f is None and not (detail or {}).get("fixed_kind"):
             kind = "removability"
         out.append((remove, outcome, kind, detail))
     return out
